@@ -171,6 +171,10 @@ class Run:
             except subprocess.TimeoutExpired as ex:
                 rc, err = RC_INCONCLUSIVE, 'driver timeout after %.0fs\n%s' % (time.time() - t0, (ex.stderr or b'')[-2000:] if isinstance(ex.stderr, bytes) else '')
             sanlogs = glob.glob(base + '.asan*') + glob.glob(base + '.tsan*')
+            if err and re.search(r'runtime error: |ERROR: AddressSanitizer|WARNING: ThreadSanitizer', err):
+                with open(base + '.stderr', 'w') as f:
+                    f.write(err)
+                sanlogs.append(base + '.stderr')
             if rc == RC_OK:
                 try:
                     with open(summary) as f:
